@@ -63,7 +63,9 @@ def sector_subset(draw, secs, min_keep=1, mode=None):
     if not secs:
         return []
     if mode is None:
-        mode = draw(st.sampled_from(["full", "sparse", "sparse", "single"]))
+        mode = draw(
+            st.sampled_from(["full", "sparse", "sparse", "sparse", "single"])
+        )
     if mode == "full" or len(secs) == 1:
         return list(secs)
     if mode == "single":
@@ -137,7 +139,16 @@ def array_specs(
     if idxs is None:
         nd = draw(st.integers(min_ndim, max_ndim))
         idxs = [
-            draw(index_specs(symm, max_charges=max_charges, max_size=max_size))
+            draw(
+                index_specs(
+                    symm,
+                    max_charges=max_charges,
+                    max_size=max_size,
+                    min_charges=min(
+                        max_charges, 2 if draw(st.integers(0, 9)) < 6 else 1
+                    ),
+                )
+            )
             for _ in range(nd)
         ]
     if charge is None:
